@@ -6,6 +6,7 @@ block boundary under every batching.  Behaviours (state-graph cover, simulation,
 mechanism) are replayed on the real EventHandler; the monitors compare the real database with the rules, the
 real memory with the real database, and the same events under two batchings (real vs real)."""
 import concurrent.futures
+import hashlib
 import json
 import os
 import random
@@ -23,6 +24,17 @@ ATTACKS = [  # (cfg, what the weakened mechanism lacks)
     ("Registry_attack_noowner.cfg", "ValidatorRemoved without the owner check"),
     ("Registry_attack_bump.cfg", "nonce bumped only for well-formed adds"),
     ("Registry_attack_nonce.cfg", "owner signature not bound to the expected nonce"),
+    ("Registry_attack_nosig.cfg", "owner signature not verified"),
+    ("Registry_attack_nolen.cfg", "share data length not checked"),
+    ("Registry_attack_nokey.cfg", "decrypted own key not compared with the public share"),
+    ("Registry_attack_nodup.cfg", "duplicate operator ids accepted"),
+    ("Registry_attack_nosize.cfg", "committee size not checked"),
+    ("Registry_attack_noexist.cfg", "unknown operators accepted"),
+    ("Registry_attack_overwrite.cfg", "a stored validator is replaced by another owner's registration"),
+    ("Registry_attack_ownid.cfg", "own public key accepted under a second operator id"),
+    ("Registry_attack_react.cfg", "ClusterReactivated does not clear the liquidation flag"),
+    ("Registry_attack_liqowner.cfg", "cluster events match on the operator set only"),
+    ("Registry_attack_exit.cfg", "ValidatorExited of a foreign owner yields an exit task"),
     ("Registry_attack_memdel.cfg", "Shares.Delete does not update the in-memory map"),
     ("Registry_attack_stale.cfg", "no ErrInferiorBlock guard"),
 ]
@@ -61,28 +73,79 @@ def sample_graph(nodes, edges, inits, seed, n_leaves, n_edges, kind="cover"):
                   "non_tree_edges": len(extra), "non_tree_edges_replayed": len(picked_e)}
 
 
+def dump_retry(cfg):
+    for attempt in (1, 2, 3):
+        rg, nodes, edges, inits = vlib.tlc_dump_graph(MODULE, cfg, timeout=1800, workers=4)
+        if rg.error or rg.violation or nodes:
+            return rg, nodes, edges, inits
+        log("[registry] graph dump of %s ended without output (attempt %d), retrying" % (cfg, attempt))
+        time.sleep(3)
+    raise vlib.MachineryError("TLC produced no state graph for %s:\n%s" % (cfg, rg.out[-1500:]))
+
+
 def simulate(cfg, num, depth, seed, ident, kind="sim"):
-    rs, sb = vlib.tlc_simulate(MODULE, cfg, num, depth, seed, keep_vars=["act"] + SV, timeout=2400)
+    for attempt in (1, 2, 3):
+        rs, sb = vlib.tlc_simulate(MODULE, cfg, num, depth, seed, keep_vars=["act"] + SV, timeout=2400)
+        if rs.violation or rs.error or len(sb) >= max(1, num // 2):
+            break
+        log("[registry] simulation of %s produced %d of %d behaviours (attempt %d), retrying" % (cfg, len(sb), num, attempt))
+        time.sleep(3)
     if rs.violation or rs.error:
         raise vlib.MachineryError("simulation of the faithful spec (%s): %s %s" % (cfg, rs.violation, (rs.error or "")[-1500:]))
     return rs, [vlib.trace_behaviour(b, "%s-%d" % (ident, k), kind, state_vars=SV) for k, b in enumerate(sb)]
 
 
+def tlc_retry(cfg, need_end=False, **kw):
+    """A TLC run that ends without statistics and without a verdict was killed from outside (another check's
+    timeout handler kills every TLC on the machine): run it once more before calling it a machinery failure."""
+    for attempt in (1, 2, 3):
+        r = vlib.tlc(MODULE, cfg, **kw)
+        if r.error or r.violation or r.finished or ((r.distinct or r.generated) and not need_end):
+            return r
+        log("[registry] TLC run of %s ended without output (attempt %d), retrying" % (cfg, attempt))
+        time.sleep(3)
+    raise vlib.MachineryError("TLC produced no statistics for %s:\n%s" % (cfg, r.out[-1500:]))
+
+
+def _spec_key(cfg):
+    h = hashlib.sha256()
+    for fn in ("Registry.tla", "MCRegistry.tla", cfg):
+        h.update(open(os.path.join(vlib.SPEC, fn), "rb").read())
+    return h.hexdigest()[:24]
+
+
+def attack_trace(cfg):
+    """Counterexample of one weakened spec (None if TLC finds none). It depends on the spec files only, so it is
+    cached under .work keyed by their hash."""
+    cdir = os.path.join(vlib.WORK, "registry-attack-cache")
+    os.makedirs(cdir, exist_ok=True)
+    cp = os.path.join(cdir, "%s-%s.json" % (cfg.replace(".cfg", ""), _spec_key(cfg)))
+    if os.path.exists(cp):
+        try:
+            return json.load(open(cp))
+        except ValueError:
+            pass
+    ra = tlc_retry(cfg, need_end=True, workers=2, timeout=900)
+    if ra.error:
+        raise vlib.MachineryError("attack config %s: %s" % (cfg, ra.error))
+    steps = vlib.trace_behaviour(ra.trace, "x", "x", state_vars=SV)["steps"] if ra.violation else None
+    tmp = cp + ".tmp%d" % os.getpid()
+    with open(tmp, "w") as f:
+        json.dump(steps, f)
+    os.replace(tmp, cp)
+    return steps
+
+
 def attack_traces(attacks, prop):
     """Counterexamples of the weakened specs, in parallel."""
-    def one(item):
-        cfg, desc = item
-        return cfg, desc, vlib.tlc(MODULE, cfg, workers=2, timeout=900)
     out = []
-    with concurrent.futures.ThreadPoolExecutor(max_workers=4) as ex:
-        for cfg, desc, ra in ex.map(one, attacks):
-            if ra.error:
-                raise vlib.MachineryError("attack config %s: %s" % (cfg, ra.error))
-            if not ra.violation:
+    with concurrent.futures.ThreadPoolExecutor(max_workers=5) as ex:
+        for (cfg, desc), steps in zip(attacks, ex.map(attack_trace, [a[0] for a in attacks])):
+            if not steps:
                 log("[%s] attack config %s produced no counterexample (not counted)" % (prop, cfg))
                 continue
-            out.append(vlib.trace_behaviour(ra.trace, "attack-" + cfg.replace(".cfg", "").replace("Registry_attack_", ""),
-                                            "attack:" + desc, state_vars=SV))
+            out.append({"id": "attack-" + cfg.replace(".cfg", "").replace("Registry_attack_", ""), "kind": "attack:" + desc,
+                        "steps": steps})
     return out
 
 
@@ -112,10 +175,10 @@ def run(tier, seed):
 
     with concurrent.futures.ThreadPoolExecutor(max_workers=4) as ex:
         # 1. exhaustive model checking of the faithful spec: every sequence, every batching (in the background)
-        f_mc = ex.submit(vlib.tlc, MODULE, T["mc"], None, 8, T["mc_stop"] + 600, T["mc_stop"])
+        f_mc = ex.submit(tlc_retry, T["mc"], workers=8, timeout=T["mc_stop"] + 600, stop_after=T["mc_stop"])
         f_att = ex.submit(attack_traces, ATTACKS, PROP)
         f_sim = ex.submit(simulate, T["sim"][0], T["sim"][1], T["sim"][2], seed, "sim")
-        f_cov = ex.submit(vlib.tlc_dump_graph, MODULE, T["cover"], None, 1800, None, 4)
+        f_cov = ex.submit(dump_retry, T["cover"])
         # 2. behaviours: state-graph cover (seeded sample), simulation, attack traces
         rg, nodes, edges, inits = f_cov.result()
         log("[C11] +%.0fs cover graph dumped" % (time.time() - t0))
